@@ -55,7 +55,7 @@ def get_map(mapid):
         return None
     if mapid not in _MAPS:
         m = DeviceInstanceTypeMapper()
-        if mapid >= 100:
+        if mapid in (100, 101):
             # sparse, heterogeneous maps: per device one or two instances with different types (C01: decoding under such
             # a map is still total and bit-identical for every event scheme)
             for s in range(64):
@@ -97,6 +97,34 @@ def _evt_job(job):
                 types.append(-9)
             hfs.add(("exc",))
     return cells, hf0 or [-9, -9, -9, -9], 1 if len(hfs) == 1 else 0, types, dict(NAMES)
+
+
+FRESH = r'''
+import sys, json
+sys.path.insert(0, sys.argv[1]); sys.path.insert(0, sys.argv[2])
+import logging
+logging.disable(logging.CRITICAL)
+__import__(sys.argv[3])          # what an application imports: one module of the package, nothing else by name
+from harness import c12
+jobs = json.loads(sys.argv[4])
+out = [c12._evt_job(tuple(j)) for j in jobs]
+print(json.dumps(out))
+'''
+
+
+def fresh_evt_results(jobs, entry):
+    """the same event tables computed in a fresh interpreter that imported only `entry` (the instance-type -> event class
+    registry is filled as a side effect of importing the package: it must not depend on who imported which submodule)"""
+    import json
+    import os
+    import subprocess
+    import sys
+    p = subprocess.run([sys.executable, "-c", FRESH, os.path.dirname(os.path.dirname(os.path.abspath(__file__))), core.REPO, entry,
+                        json.dumps(jobs)], stdout=subprocess.PIPE, stderr=subprocess.PIPE, text=True, timeout=600,
+                       env=dict(os.environ, PYTHONHASHSEED="0"))
+    if p.returncode != 0:
+        raise core.MachineryError("fresh interpreter (%s) failed:\n%s" % (entry, p.stderr[-2000:]))
+    return [tuple(x[:4]) + (x[4],) for x in json.loads(p.stdout)]
 
 
 def map_history(seed, k, nops):
@@ -217,10 +245,10 @@ def run(tier, seed, replay=None):
         jobs = [(0, h) for h in range(8192)]
         di_hdrs = [h for h in range(8192) if (h >> 12) == 0 and ((h >> 5) & 1) == 1]   # bit23=0, bit15=1
         if tier == "thorough":
-            mapids = [-1] + list(range(1, 33))
+            mapids = [-1] + list(range(1, 33)) + [33, 64, 97, 129, 255, 256]     # (what a unit answers to QUERY INSTANCE TYPE is a byte)
             hdrs = di_hdrs
         else:
-            mapids = [-1, 1, 2, 4, 5, 8, 32]
+            mapids = [-1, 1, 2, 4, 5, 8, 32, 33, 97, 256]
             hdrs = [h for h in di_hdrs if ((h >> 6) & 63) in (0, 1, 31, 62, 63)]
         for mid in mapids:
             jobs += [(mid, h) for h in hdrs]
@@ -232,10 +260,25 @@ def run(tier, seed, replay=None):
                 jobs, hists = [(c["map"], c["hdr"])], []
             else:
                 jobs, hists = [], [map_history(c["gen"]["seed"], c["gen"]["k"], c["gen"]["nops"])]
-        results = core.pmap(_evt_job, jobs, chunksize=32)
+        fresh_of = {}
+        if replay is not None and replay["case"].get("fresh"):
+            results = fresh_evt_results([list(j) for j in jobs], replay["case"]["fresh"])
+            fresh_of = {0: replay["case"]["fresh"]}
+        else:
+            results = core.pmap(_evt_job, jobs, chunksize=32)
+        if replay is None:
+            # device-scheme events of instance types 1, 3, 4 and device/instance events under maps of these types, from fresh
+            # interpreters that imported one module only
+            fj = [(0, (s_ << 6) | (t << 0)) for s_ in (0, 5) for t in (1, 3, 4, 2)] + \
+                 [(mid, (5 << 6) | 32 | n) for mid in (2, 4, 5) for n in (0, 7)]
+            for entry in ("dali.device.general", "dali.device.helpers", "dali.driver.hid"):
+                for k in range(len(jobs), len(jobs) + len(fj)):
+                    fresh_of[k] = entry
+                jobs += fj
+                results += fresh_evt_results([list(j) for j in fj], entry)
         rows = core.Interner()
         recs = []
-        for (mid, h), (cells, hf, same, types, names) in zip(jobs, results):
+        for jx, ((mid, h), (cells, hf, same, types, names)) in enumerate(zip(jobs, results)):
             # merge name tables of the workers (indices are per-process: re-map through names)
             inv = {v: k for k, v in names.items()}
             fixed = []
@@ -247,7 +290,7 @@ def run(tier, seed, replay=None):
                     if q not in NAMES:
                         NAMES[q] = len(NAMES) + 1
                     fixed.append(NAMES[q] * 2048 + c % 2048)
-            recs.append({"kind": "evt", "map": mid, "hdr": h, "hf": hf, "hfsame": same, "types": types,
+            recs.append({"kind": "evt", "map": mid, "hdr": h, "hf": hf, "hfsame": same, "types": types, "fresh": fresh_of.get(jx, ""),
                          "row": rows.add(fixed)})
         recs += hists
         for ix, r_ in enumerate(recs, 1):
@@ -281,7 +324,7 @@ def run(tier, seed, replay=None):
         rej = []
         for rj in rejects:
             rec = byid.get(rj[1], {})
-            case = {k: rec.get(k) for k in ("kind", "map", "hdr", "gen") if k in rec}
+            case = {k: rec.get(k) for k in ("kind", "map", "hdr", "gen", "fresh") if k in rec}
             rej.append((case, {"clause": rj[2], "at": rj[3]}))
         out.classify(rej, None)
     return out.finish()
